@@ -523,6 +523,9 @@ impl NodeMon for C05 {
     fn begin(&mut self, _s: &Start, _rep: &mut Report) {
         self.prev = None;
     }
+    fn follows_library(&self) -> bool {
+        true
+    }
     fn node(&mut self, n: &Node, rep: &mut Report, _rng: &mut Rng) {
         let b = n.b;
         rep.eval();
@@ -1017,6 +1020,49 @@ impl HashMon {
                     rep.violation("C09/sibling/side", format!("{} : same hash for either side to move", describe_packed(&base_key)));
                 }
                 self.record(&t1, "sibling", rep);
+            }
+        }
+        // the position after passing the turn (side and possibly e.p. state differ): distinct, so hashes must differ
+        if let Some(n1) = b.null_move() {
+            rep.count("sib_null-move");
+            rep.eval();
+            if n1.get_hash() == h {
+                rep.violation("C09/sibling/null-move", format!("{} and the position after null_move() share hash {:016x}", describe_packed(&base_key), h));
+            }
+            self.record(&n1, "sibling", rep);
+        }
+        // every subset of the castling rights that are present: all pairwise distinct positions
+        {
+            let w = rights_bits(orig.get_castle_rights(Color::White));
+            let k = rights_bits(orig.get_castle_rights(Color::Black));
+            let present = w | (k << 2);
+            if present != 0 && present.count_ones() >= 2 {
+                let mut boards: Vec<(u8, Board)> = vec![];
+                for sub in 0..16u8 {
+                    if sub & !present != 0 {
+                        continue;
+                    }
+                    let mut bb = orig;
+                    bb.castle_rights(Color::White, lib_rights(sub & 3));
+                    bb.castle_rights(Color::Black, lib_rights(sub >> 2));
+                    if let Ok(t) = Board::try_from(&bb) {
+                        boards.push((sub, t));
+                    }
+                }
+                for i in 0..boards.len() {
+                    for j in 0..i {
+                        rep.count("sib_castle-subsets");
+                        rep.eval();
+                        if boards[i].1.get_hash() == boards[j].1.get_hash() {
+                            rep.violation(
+                                "C09/sibling/castle-subsets",
+                                format!("{} : rights {:04b} and {:04b} (bits qkQK) give the same hash", describe_packed(&base_key), boards[i].0, boards[j].0),
+                            );
+                        }
+                    }
+                    let t = boards[i].1;
+                    self.record(&t, "sibling", rep);
+                }
             }
         }
         // each castling right that is present
